@@ -10,8 +10,6 @@ import (
 
 	"github.com/at-wat/ebml-go"
 	"github.com/at-wat/ebml-go/webm"
-	"github.com/jech/samplebuilder"
-	"github.com/pion/rtp"
 
 	"verif/core"
 )
@@ -28,6 +26,7 @@ type block struct {
 	key   bool
 	data  []byte
 	frame int // matched frame index, -1
+	owner int // frame a corrupted block is attributed to, -1
 }
 
 type verdict struct {
@@ -47,7 +46,8 @@ func (v *verdict) add(sig, what string) {
 
 var codecID = map[string]string{"vp8": "V_VP8", "vp9": "V_VP9", "h264": "V_MPEG4/ISO/AVC"}
 
-// histClass names the perturbations a history contains.
+// histClass names the perturbations a history contains (used for the
+// signature of violations that no known root-cause class explains).
 func histClass(st *stream, h *History) string {
 	var reorder, dup, cached, lost, sr bool
 	seen := map[int]bool{}
@@ -94,20 +94,239 @@ func histClass(st *stream, h *History) string {
 	if sr {
 		l = append(l, "sender-report")
 	}
-	if len(l) == 0 {
-		return "in-order"
+	s := "in-order"
+	if len(l) > 0 {
+		s = strings.Join(l, "+")
 	}
-	return strings.Join(l, "+")
+	if st.cfg.PreN > 0 || st.cfg.PreA > 0 {
+		s = "after-preroll+" + s
+	}
+	return s
 }
+
+// ---------------------------------------------------------------------------
+// the analysis context of one execution
+
+type ctx struct {
+	st    *stream
+	h     *History
+	o     *obs
+	v     *verdict
+	class string
+
+	pushed    []bool // written, or handed out by GetPacket
+	recovered []bool // the first copy the recorder got came from the cache
+	avail     []bool // written, or recoverable from the cache
+	availStep []int
+	allWritten, allAvail bool
+
+	order [2][]pushEv
+	refs  [2][2]*refRun
+	haveO [2]bool
+
+	usedRef [2][2]map[int]bool // reference samples already matched with a block
+	present [2]map[int]int  // frame -> block index (intact)
+	corrupt [2]map[int]bool // frame -> a corrupted block is attributed to it
+}
+
+func (c *ctx) pushOrder(t int) []pushEv {
+	if !c.haveO[t] {
+		c.order[t] = pushOrder(c.st, c.h, c.o, t)
+		c.haveO[t] = true
+	}
+	return c.order[t]
+}
+
+func (c *ctx) ref(t int, padded bool) *refRun {
+	i := 0
+	if padded {
+		i = 1
+	}
+	if c.refs[t][i] == nil {
+		c.refs[t][i] = reference(c.st, c.pushOrder(t), t, padded)
+	}
+	return c.refs[t][i]
+}
+
+func (c *ctx) codec(t int) string {
+	if t == trA {
+		return "opus"
+	}
+	return c.st.cfg.Codec
+}
+
+// frameOfSample attributes a reference sample to a frame of the track by the
+// RTP timestamp the builder reports for it.
+func (c *ctx) frameOfSample(t int, r *refRun, si int) int {
+	ts := r.samples[si].ts
+	for fi, f := range c.st.fr[t] {
+		if f.TS == ts {
+			return fi
+		}
+	}
+	return -1
+}
+
+// depack depacketises the first n packets of a frame; packets that came from
+// the cache are followed by the rest of the fetch buffer when padded.
+func (c *ctx) depack(t, fi, n int, padded bool) ([]byte, bool) {
+	f := c.st.fr[t][fi]
+	d := depacketizer(c.codec(t))
+	var out []byte
+	for k := 0; k < n; k++ {
+		pi := f.Pk[k]
+		pay := c.st.pk[pi].Pay
+		if padded && c.recovered[pi] {
+			pay = append(append([]byte(nil), pay...), make([]byte, 1504-len(c.st.pk[pi].Raw))...)
+		}
+		x, err := d.Unmarshal(pay)
+		if err != nil {
+			return nil, false
+		}
+		out = append(out, x...)
+	}
+	return out, true
+}
+
+func (c *ctx) hasRecovered(t, fi int) bool {
+	for _, pi := range c.st.fr[t][fi].Pk {
+		if c.recovered[pi] {
+			return true
+		}
+	}
+	return false
+}
+
+// refSampleOf returns the reference sample that belongs to frame fi, or -1.
+func (c *ctx) refSampleOf(t, fi int) int {
+	r := c.ref(t, false)
+	for si := range r.samples {
+		if c.frameOfSample(t, r, si) == fi {
+			return si
+		}
+	}
+	return -1
+}
+
+// overtaken: when the builder released keyframe fi, the last keyframe packet
+// that had reached the recorder belonged to another frame (a later keyframe,
+// or a duplicate of an earlier one).
+func (c *ctx) overtaken(fi int) bool {
+	si := c.refSampleOf(trV, fi)
+	if si < 0 {
+		return false
+	}
+	r := c.ref(trV, false)
+	at := r.samples[si].at
+	last := -1
+	for k, ev := range r.order {
+		if k > at {
+			break
+		}
+		if c.st.pk[ev.pkt].KF {
+			last = c.st.pk[ev.pkt].Frame
+		}
+	}
+	return last >= 0 && last != fi
+}
+
+// splitBefore names the event between the first keyframe k and frame fi
+// (inclusive) that makes the recorder start a new file.
+func (c *ctx) splitBefore(k, fi int) string {
+	cfg := c.st.cfg
+	fr := c.st.fr[trV]
+	pw, ph := fr[k].W, fr[k].H
+	for x := k + 1; x <= fi && x < len(fr); x++ {
+		if cfg.Jump > 0 && x == cfg.PreN+cfg.Jump {
+			return "timestamp-excursion"
+		}
+		if fr[x].Key {
+			if fr[x].W != pw || fr[x].H != ph {
+				return "dimension-change"
+			}
+			pw, ph = fr[x].W, fr[x].H
+		}
+	}
+	return ""
+}
+
+func seqLE(a, b uint16) bool { return (b-a)&0x8000 == 0 }
+
+// droppedByBuilder names why the dependency never released a frame all of
+// whose packets it was given.
+func (c *ctx) droppedByBuilder(t, fi int) string {
+	r := c.ref(t, false)
+	f := c.st.fr[t][fi]
+	firstSeq := c.st.pk[f.Pk[0]].Seq
+	for k := range r.order {
+		if r.dupNewest[k] && seqLE(firstSeq, r.newestSeq[k]) {
+			return "duplicate-of-newest-buffered-packet"
+		}
+	}
+	for k, ev := range r.order {
+		if r.late[k] && c.st.pk[ev.pkt].Track == t && c.st.pk[ev.pkt].Frame == fi {
+			return "packet-late-for-released-frame"
+		}
+	}
+	return "other/" + c.class
+}
+
+func (c *ctx) allPushed(t, fi int) bool {
+	for _, pi := range c.st.fr[t][fi].Pk {
+		if !c.pushed[pi] {
+			return false
+		}
+	}
+	return true
+}
+
+// whyMissingVideo: the class of a video frame that had to be recorded and is
+// not (k = first available keyframe).
+func (c *ctx) whyMissingVideo(k, fi int) string {
+	if !c.allPushed(trV, fi) {
+		return "not-fetched-from-cache"
+	}
+	if c.refSampleOf(trV, fi) < 0 {
+		return "dropped-by-samplebuilder/" + c.droppedByBuilder(trV, fi)
+	}
+	// the dependency releases it: the recorder dropped it.  Governing
+	// keyframe: the last keyframe <= fi that the dependency released.
+	g := -1
+	for x := fi; x >= 0; x-- {
+		if c.st.fr[trV][x].Key && c.refSampleOf(trV, x) >= 0 {
+			g = x
+			break
+		}
+	}
+	if g >= 0 && c.overtaken(g) {
+		return "keyframe-overtaken"
+	}
+	if s := c.splitBefore(k, fi); s != "" {
+		return "after-file-split/" + s
+	}
+	// the keyframe it depends on was itself lost to the dependency
+	for x := fi - 1; x >= k; x-- {
+		if !c.st.fr[trV][x].Key {
+			continue
+		}
+		if x == g {
+			break
+		}
+		if c.allPushed(trV, x) && c.refSampleOf(trV, x) < 0 {
+			return "after-keyframe-dropped-by-samplebuilder/" + c.droppedByBuilder(trV, x)
+		}
+	}
+	return "dropped-by-recorder/" + c.class
+}
+
+// ---------------------------------------------------------------------------
 
 // check is the oracle: it compares what is on disk with what was sent.
 func check(st *stream, h *History, o *obs) *verdict {
 	v := &verdict{}
-	c := st.cfg
-	class := histClass(st, h)
-	if c.PreN > 0 || c.PreA > 0 {
-		class = "after-preroll+" + class
-	}
+	cfg := st.cfg
+	c := &ctx{st: st, h: h, o: o, v: v, class: histClass(st, h)}
+	class := c.class
 	if o.panicV != nil {
 		v.add("panic/"+class, fmt.Sprintf("panic in the recorder: %v\n%s", o.panicV, tailStr(o.panicSt, 1500)))
 		v.outcome = "panic"
@@ -123,23 +342,38 @@ func check(st *stream, h *History, o *obs) *verdict {
 	// what entered the recorder (observed at the seam) and what was
 	// available to it
 	np := len(st.pk)
-	pushed := make([]bool, np)    // written, or handed out by GetPacket
-	pushStep := make([]int, np)   // step at which it entered
-	recovered := make([]bool, np) // first copy came from the cache
-	avail := make([]bool, np)     // written, or recoverable from the cache
-	availStep := make([]int, np)
-	allWritten := true
+	c.pushed = make([]bool, np)
+	c.recovered = make([]bool, np)
+	c.avail = make([]bool, np)
+	c.availStep = make([]int, np)
+	pushStep := make([]int, np)
+	c.allWritten = true
 	bySeq := [2]map[uint16]int{{}, {}}
+	const inf = 1 << 30
+	ws := func(i int) int { // step of the first write; -1 macro; inf never
+		p := st.pk[i]
+		if p.Macro {
+			if p.PreLost {
+				return inf
+			}
+			return -1
+		}
+		if o.wstep[i] < 0 {
+			return inf
+		}
+		return o.wstep[i]
+	}
 	for i, p := range st.pk {
 		bySeq[p.Track][p.Seq] = i
-		pushStep[i], availStep[i] = 1<<30, 1<<30
-		if o.wstep[i] >= 0 || (p.Macro && !p.PreLost) {
-			pushed[i], avail[i] = true, true
-			pushStep[i], availStep[i] = o.wstep[i], o.wstep[i]
-		} else {
-			allWritten = false
+		pushStep[i], c.availStep[i] = inf, inf
+		if w := ws(i); w < inf {
+			c.pushed[i], c.avail[i] = true, true
+			pushStep[i], c.availStep[i] = w, w
+		} else if !(p.Macro && p.PreLost) {
+			c.allWritten = false
 		}
 	}
+	maxDelay := o.maxDelay
 	for t := 0; t < 2; t++ {
 		if o.tracks[t] == nil {
 			continue
@@ -149,59 +383,53 @@ func check(st *stream, h *History, o *obs) *verdict {
 			if !ok || g.n == 0 {
 				continue
 			}
-			// a successful fetch at a step before (or at) the packet's own
-			// first Write: the first copy the recorder has is the cache's
-			if !pushed[i] || g.step <= pushStep[i] {
-				recovered[i] = true
-				pushed[i] = true
+			// a successful fetch not later than the packet's own first
+			// Write: the first copy the recorder has is the cache's
+			if !c.pushed[i] || g.step <= pushStep[i] {
+				c.recovered[i] = true
+				c.pushed[i] = true
 				if g.step < pushStep[i] {
 					pushStep[i] = g.step
+				}
+				if d := g.at - st.pk[i].Cap; d > maxDelay {
+					maxDelay = d
 				}
 			}
 		}
 	}
-	// recoverable: stored in the cache, and the recorder has seen (been
-	// written) a packet of the track before it and one after it, the later
-	// of the two being written when the packet was already in the cache.
+	// recoverable: the packet is in the cache at the moment the gap is
+	// noticed, i.e. when the first packet after it is written to the
+	// recorder, a packet before it having been written earlier.
 	for i, p := range st.pk {
-		if avail[i] || o.cstep[i] < 0 {
+		if c.avail[i] || o.cstep[i] < 0 {
 			continue
 		}
-		lo, hi := 1<<30, 1<<30
+		lo, hi := inf, inf
 		for j, q := range st.pk {
-			if q.Track != p.Track {
+			if q.Track != p.Track || j == i {
 				continue
 			}
-			ws := o.wstep[j]
-			if q.Macro && !q.PreLost {
-				ws = -1
-			} else if ws < 0 {
+			w := ws(j)
+			if w == inf {
 				continue
 			}
 			d := int16(q.Seq - p.Seq)
-			if d < 0 && ws < lo {
-				lo = ws
+			if d < 0 && w < lo {
+				lo = w
 			}
-			if d > 0 && ws < hi && ws >= o.cstep[i] {
-				// the first packet after it written once it is in the cache
-				hi = ws
+			if d > 0 && w < hi {
+				hi = w
 			}
 		}
-		// a later packet written BEFORE the store does not help unless an
-		// even later write follows; hi already honours ws >= cstep
-		if lo < 1<<30 && hi < 1<<30 {
-			noticed := hi
-			if lo > noticed {
-				noticed = lo
-			}
-			avail[i] = true
-			availStep[i] = noticed
+		if hi < inf && lo < hi && o.cstep[i] < hi {
+			c.avail[i] = true
+			c.availStep[i] = hi
 		}
 	}
-	allAvail := true
-	for i := range st.pk {
-		if !avail[i] {
-			allAvail = false
+	c.allAvail = true
+	for i, p := range st.pk {
+		if !c.avail[i] && !(p.Macro && p.PreLost) {
+			c.allAvail = false
 		}
 	}
 
@@ -214,7 +442,7 @@ func check(st *stream, h *History, o *obs) *verdict {
 	}
 	var finfos []finfo
 	wantExt, wantDoc := ".webm", "webm"
-	if c.Codec == "h264" {
+	if cfg.Codec == "h264" {
 		wantExt, wantDoc = ".mkv", "matroska"
 	}
 	for fi, f := range o.files {
@@ -242,11 +470,11 @@ func check(st *stream, h *History, o *obs) *verdict {
 		}
 		// declared tracks: audio first (if any), then video
 		var want []string
-		if c.hasAudio() {
+		if cfg.hasAudio() {
 			want = append(want, "A_OPUS")
 		}
-		if c.hasVideo() {
-			want = append(want, codecID[c.Codec])
+		if cfg.hasVideo() {
+			want = append(want, codecID[cfg.Codec])
 		}
 		te := doc.Segment.Tracks.TrackEntry
 		trackOf := map[uint64]int{}
@@ -275,6 +503,9 @@ func check(st *stream, h *History, o *obs) *verdict {
 		if !ok {
 			v.add("container/tracks", fmt.Sprintf("%s declares tracks %+v, expected %v (audio 48000 Hz 2 channels, video with pixel dimensions)", f.name, describeTracks(te), want))
 		}
+		if len(doc.Segment.Cluster) == 0 {
+			v.add("container/not-finalised", f.name+": no cluster at all (the writer appends a final cluster when it is closed)")
+		}
 		for _, cl := range doc.Segment.Cluster {
 			if len(cl.BlockGroup) > 0 {
 				v.add("container/blockgroup", f.name+": unexpected BlockGroup")
@@ -290,7 +521,7 @@ func check(st *stream, h *History, o *obs) *verdict {
 					continue
 				}
 				blocks = append(blocks, block{file: fi, track: tr, time: int64(cl.Timecode) + int64(b.Timecode),
-					key: b.Keyframe, data: b.Data[0], frame: -1})
+					key: b.Keyframe, data: b.Data[0], frame: -1, owner: -1})
 				info.nblock++
 			}
 		}
@@ -299,7 +530,8 @@ func check(st *stream, h *History, o *obs) *verdict {
 
 	// ------------------------------------------------------------------
 	// every block is exactly one sent frame; no repeats; order; timestamps
-	present := [2]map[int]int{{}, {}} // frame -> block index
+	c.present = [2]map[int]int{{}, {}}
+	c.corrupt = [2]map[int]bool{{}, {}}
 	for t := 0; t < 2; t++ {
 		byData := map[string]int{}
 		for i, f := range st.fr[t] {
@@ -313,22 +545,32 @@ func check(st *stream, h *History, o *obs) *verdict {
 			}
 			fi, ok := byData[string(b.data)]
 			if !ok {
-				sig, what := explainBlock(st, h, o, t, b, recovered, class)
-				v.add(sig, what)
+				c.explainBlock(t, b)
+				if b.owner >= 0 {
+					c.corrupt[t][b.owner] = true
+				}
 			} else {
 				b.frame = fi
 				f := st.fr[t][fi]
-				if prev, dup := present[t][fi]; dup {
+				if prev, dup := c.present[t][fi]; dup {
 					v.add("frame-written-twice/"+class, fmt.Sprintf("%s is written twice (blocks %d and %d of the recording)", st.fname(t, fi), prev, bi))
 				} else {
-					present[t][fi] = bi
+					c.present[t][fi] = bi
 					if fi < lastFrame {
 						v.add("frame-out-of-order/"+class, fmt.Sprintf("%s is written after %s", st.fname(t, fi), st.fname(t, lastFrame)))
 					}
 					lastFrame = fi
 				}
 				if t == trV && b.key != f.Key {
-					v.add(fmt.Sprintf("keyframe-flag/%s", class), fmt.Sprintf("%s (keyframe=%v) is written with keyframe flag %v", st.fname(t, fi), f.Key, b.key))
+					if f.Key {
+						cl := "other/" + class
+						if c.overtaken(fi) {
+							cl = "keyframe-overtaken"
+						}
+						v.add("keyframe-flag/"+cl, fmt.Sprintf("%s is written without the keyframe flag", st.fname(t, fi)))
+					} else {
+						v.add("keyframe-flag/delta-flagged-key/"+class, fmt.Sprintf("%s is written with the keyframe flag", st.fname(t, fi)))
+					}
 				}
 				if t == trA && !b.key {
 					v.add("keyframe-flag/audio", fmt.Sprintf("%s written without the keyframe flag", st.fname(t, fi)))
@@ -341,22 +583,74 @@ func check(st *stream, h *History, o *obs) *verdict {
 		}
 	}
 
+	// ------------------------------------------------------------------
+	// the first available keyframe
+	frameAvail := func(t, fi int) (bool, int, bool) {
+		all, step, viaCache := true, -1, false
+		for _, pi := range st.fr[t][fi].Pk {
+			if !c.avail[pi] {
+				all = false
+				continue
+			}
+			if c.availStep[pi] > step {
+				step = c.availStep[pi]
+			}
+			if ws(pi) == inf {
+				viaCache = true
+			}
+		}
+		return all, step, viaCache
+	}
+	k := -1
+	kReady := -1
+	lossBeforeK := false
+	if cfg.hasVideo() {
+		for fi, f := range st.fr[trV] {
+			all, _, _ := frameAvail(trV, fi)
+			if f.Key && all {
+				k = fi
+				break
+			}
+		}
+	}
+
 	// per file: the first video block is a keyframe and the declared
-	// dimensions are that keyframe's
-	if c.hasVideo() {
+	// dimensions are those of the keyframes it contains
+	if cfg.hasVideo() {
 		for fi := range o.files {
 			first := true
 			for _, b := range blocks {
-				if b.file != fi || b.track != trV || b.frame < 0 {
+				if b.file != fi || b.track != trV {
+					continue
+				}
+				if b.frame < 0 {
+					first = false // a corrupted block, reported above
 					continue
 				}
 				f := st.fr[trV][b.frame]
 				if first && !f.Key {
-					v.add("file-starts-without-keyframe/"+class, fmt.Sprintf("%s: first video block is %s, not a keyframe", o.files[fi].name, st.fname(trV, b.frame)))
+					g := -1
+					for x := b.frame; x >= 0; x-- {
+						if st.fr[trV][x].Key {
+							g = x
+							break
+						}
+					}
+					cl := "other/" + class
+					if s := c.splitBefore(maxInt(k, 0), b.frame); k >= 0 && s != "" {
+						cl = "after-file-split/" + s
+					} else if g >= 0 && c.overtaken(g) {
+						cl = "keyframe-overtaken"
+					}
+					v.add("file-starts-without-keyframe/"+cl, fmt.Sprintf("%s: the first video block is %s, not a keyframe", o.files[fi].name, st.fname(trV, b.frame)))
 				}
 				first = false
 				if f.Key && fi < len(finfos) && (finfos[fi].w != f.W || finfos[fi].h != f.H) {
-					v.add("container/video-dimensions/"+class, fmt.Sprintf("%s declares %dx%d but contains keyframe %s of %dx%d",
+					cl := "other/" + class
+					if c.overtaken(b.frame) {
+						cl = "keyframe-overtaken"
+					}
+					v.add("container/video-dimensions/"+cl, fmt.Sprintf("%s declares %dx%d but contains keyframe %s of %dx%d",
 						o.files[fi].name, finfos[fi].w, finfos[fi].h, st.fname(trV, b.frame), f.W, f.H))
 				}
 			}
@@ -366,101 +660,85 @@ func check(st *stream, h *History, o *obs) *verdict {
 	// ------------------------------------------------------------------
 	// completeness / flush
 	//
-	// K: the first video keyframe (sending order) all of whose packets were
-	// available.  Video frames from K on whose packets were all available
+	// k: the first video keyframe (sending order) all of whose packets were
+	// available.  Video frames from k on whose packets were all available
 	// must be present.  Audio frames (when there is video) must be present
 	// if they entered the recorder after every available video packet up to
-	// and including K had entered it and nothing up to K was unavailable.
-	frameAvail := func(t, fi int) (bool, int, bool) {
-		all, step, viaCache := true, -1, false
-		for _, pi := range st.fr[t][fi].Pk {
-			if !avail[pi] {
-				all = false
+	// and including k had entered it and nothing up to k was unavailable.
+	avText := func(viaCache bool) string {
+		if viaCache {
+			return "were written to the recorder or were in the cache when the gap was noticed"
+		}
+		return "were written to the recorder"
+	}
+	if cfg.hasVideo() && k >= 0 {
+		for fi := 0; fi <= k; fi++ {
+			for _, pi := range st.fr[trV][fi].Pk {
+				if !c.avail[pi] {
+					lossBeforeK = true
+				} else if c.availStep[pi] > kReady {
+					kReady = c.availStep[pi]
+				}
+			}
+		}
+		for fi := k; fi < len(st.fr[trV]); fi++ {
+			all, _, viaCache := frameAvail(trV, fi)
+			if !all {
 				continue
 			}
-			if availStep[pi] > step {
-				step = availStep[pi]
+			if _, ok := c.present[trV][fi]; ok || c.corrupt[trV][fi] {
+				continue
 			}
-			if o.wstep[pi] < 0 && !(st.pk[pi].Macro && !st.pk[pi].PreLost) {
-				viaCache = true
-			}
-		}
-		return all, step, viaCache
-	}
-	missClass := func(viaCache bool) string {
-		switch {
-		case viaCache:
-			return "recoverable-from-cache"
-		case allWritten:
-			return "every-packet-written"
-		case allAvail:
-			return "every-packet-available"
-		default:
-			return "held-behind-gap"
+			why := c.whyMissingVideo(k, fi)
+			v.add("frame-missing/"+why, fmt.Sprintf("%s is not in the recording although all its packets %s and it is not before the first keyframe (%s)",
+				st.fname(trV, fi), avText(viaCache), st.fname(trV, k)))
 		}
 	}
-	k := -1
-	kReady := -1
-	lossBeforeK := false
-	if c.hasVideo() {
-		for fi, f := range st.fr[trV] {
-			all, _, _ := frameAvail(trV, fi)
-			if f.Key && all {
-				k = fi
-				break
-			}
-		}
-		if k >= 0 {
-			for fi := 0; fi <= k; fi++ {
-				for _, pi := range st.fr[trV][fi].Pk {
-					if !avail[pi] {
-						lossBeforeK = true
-					} else if availStep[pi] > kReady {
-						kReady = availStep[pi]
-					}
-				}
-			}
-			split := ""
-			for fi := k; fi < len(st.fr[trV]); fi++ {
-				f := st.fr[trV][fi]
-				if fi > k && f.Key && (f.W != st.fr[trV][k].W || f.H != st.fr[trV][k].H) && split == "" {
-					split = "dimension-change"
-				}
-				if c.Jump > 0 && fi >= c.PreN+c.Jump && split == "" {
-					split = "timestamp-excursion"
-				}
-				all, _, viaCache := frameAvail(trV, fi)
-				if !all {
-					continue
-				}
-				if _, ok := present[trV][fi]; !ok && !explained(st, blocks, trV, fi) {
-					cl := missClass(viaCache)
-					if split != "" {
-						cl = "after-file-split/" + split + "/" + cl
-					}
-					v.add("frame-missing/"+cl+"/"+class, fmt.Sprintf("%s is not in the recording although all its packets %s and it follows the first keyframe %s",
-						st.fname(trV, fi), map[bool]string{true: "were written to the recorder or were in the cache when the gap was noticed", false: "were written to the recorder"}[viaCache],
-						st.fname(trV, k)))
-				}
-			}
-		}
-	}
-	if c.hasAudio() {
+	if cfg.hasAudio() {
 		for fi := range st.fr[trA] {
 			all, step, viaCache := frameAvail(trA, fi)
 			if !all {
 				continue
 			}
-			if c.hasVideo() {
+			if cfg.hasVideo() {
 				if k < 0 || lossBeforeK || step <= kReady {
 					continue
 				}
+				// the file's time zero is the first keyframe; tracks are
+				// aligned by arrival instants, so an audio frame captured
+				// within the arrival jitter after the keyframe may map
+				// before time zero and is then legitimately left out
+				if st.fr[trA][fi].Cap-st.fr[trV][k].Cap <= maxDelay+3*time.Millisecond {
+					continue
+				}
 			}
-			if _, ok := present[trA][fi]; !ok && !explained(st, blocks, trA, fi) {
-				cl := missClass(viaCache)
-				v.add("frame-missing/audio/"+cl+"/"+class, fmt.Sprintf("%s is not in the recording although it reached the recorder%s",
-					st.fname(trA, fi), map[bool]string{true: " after the first video keyframe was complete", false: ""}[c.hasVideo()]))
+			if _, ok := c.present[trA][fi]; ok || c.corrupt[trA][fi] {
+				continue
 			}
+			why := ""
+			switch {
+			case !c.allPushed(trA, fi):
+				why = "not-fetched-from-cache"
+			case c.refSampleOf(trA, fi) < 0:
+				why = "dropped-by-samplebuilder/" + c.droppedByBuilder(trA, fi)
+			case cfg.hasVideo():
+				_, kPresent := c.present[trV][k]
+				switch {
+				case !kPresent && !c.corrupt[trV][k]:
+					why = "first-keyframe-" + c.whyMissingVideo(k, k)
+				case c.splitBefore(k, len(st.fr[trV])-1) != "":
+					why = "after-file-split/" + c.splitBefore(k, len(st.fr[trV])-1)
+				case c.overtaken(k):
+					why = "keyframe-overtaken"
+				default:
+					why = "dropped-by-recorder/" + class
+				}
+			default:
+				why = "dropped-by-recorder/" + class
+			}
+			v.add("frame-missing/audio/"+why, fmt.Sprintf("%s is not in the recording although it %s%s",
+				st.fname(trA, fi), map[bool]string{true: "was in the cache when the gap was noticed", false: "was written to the recorder"}[viaCache],
+				map[bool]string{true: " after the first video keyframe was complete", false: ""}[cfg.hasVideo()]))
 		}
 	}
 
@@ -468,8 +746,8 @@ func check(st *stream, h *History, o *obs) *verdict {
 	// audio and video share one origin: within a file, (block time -
 	// capture instant) is the same for audio and video blocks up to the
 	// arrival jitter of the history plus ms truncation.
-	if c.hasAudio() && c.hasVideo() {
-		tol := int64(o.maxDelay/time.Millisecond) + 3
+	if cfg.hasAudio() && cfg.hasVideo() {
+		tol := int64(maxDelay/time.Millisecond) + 3
 		for _, a := range blocks {
 			if a.track != trA || a.frame < 0 {
 				continue
@@ -483,7 +761,7 @@ func check(st *stream, h *History, o *obs) *verdict {
 				got := a.time - b.time
 				if d := got - want; d > tol || d < -tol {
 					v.add("av-offset/"+class, fmt.Sprintf("%s at %d ms and %s at %d ms differ by %d ms in the file, their capture instants by %d ms (tolerance %d ms = largest arrival delay %v + 3 ms truncation)",
-						st.fname(trA, a.frame), a.time, st.fname(trV, b.frame), b.time, got, want, tol, o.maxDelay))
+						st.fname(trA, a.frame), a.time, st.fname(trV, b.frame), b.time, got, want, tol, maxDelay))
 				}
 			}
 		}
@@ -500,35 +778,27 @@ func check(st *stream, h *History, o *obs) *verdict {
 		fmt.Fprintf(&ob, "|%s:", tname(t))
 		for _, b := range blocks {
 			if b.track == t {
+				if b.frame >= 0 && b.frame < cfg.PreN+cfg.PreA-1 {
+					continue // pre-roll frames: not part of the outcome
+				}
 				fmt.Fprintf(&ob, "%d.%d@%d,", b.file, b.frame, b.time)
 			}
 		}
 		fmt.Fprintf(&ob, "k%dg%d", o.tracks[t].kfReq, len(o.tracks[t].gets))
 	}
 	for _, x := range v.viol {
-		ob.WriteString("!" + x.Signature)
+		ob.WriteString("!" + strings.TrimPrefix(x.Signature, "C20/"))
 	}
 	v.outcome = ob.String()
 	v.blocks = blocks
 	return v
 }
 
-// explained: a missing frame whose (corrupted) content is in the recording
-// has already been reported by the byte-identity rule.
-func explained(st *stream, blocks []block, t, fi int) bool {
-	f := st.fr[t][fi]
-	first := st.pk[f.Pk[0]]
-	d := depacketizer(map[bool]string{true: "opus", false: st.cfg.Codec}[t == trA])
-	head, err := d.Unmarshal(first.Pay)
-	if err != nil || len(head) == 0 {
-		return false
+func maxInt(a, b int) int {
+	if a > b {
+		return a
 	}
-	for _, b := range blocks {
-		if b.track == t && b.frame < 0 && bytes.HasPrefix(b.data, head) {
-			return true
-		}
-	}
-	return false
+	return b
 }
 
 func tname(t int) string {
@@ -581,180 +851,121 @@ func tailStr(s string, n int) string {
 // ---------------------------------------------------------------------------
 // a block that is not a sent frame: name the failing class
 
-// pushOrder reconstructs, from what the seam observed, the sequence of
-// packets that entered the recorder for a track: every Write, and every
-// successful GetPacket at the step it happened (before that step's Write).
-func pushOrder(st *stream, h *History, o *obs, t int) []int {
-	bySeq := map[uint16]int{}
-	for i, p := range st.pk {
-		if p.Track == t {
-			bySeq[p.Seq] = i
+func (c *ctx) explainBlock(t int, b *block) {
+	st, v := c.st, c.v
+	desc := fmt.Sprintf("block of %d bytes at %d ms (track %s) is not byte-identical to any frame that was sent", len(b.data), b.time, tname(t))
+	const s8 = "frame-bytes-differ/cache-recovered-packet"
+	s8what := func(fi int) string {
+		n := 0
+		for _, pi := range st.fr[t][fi].Pk {
+			if c.recovered[pi] {
+				n++
+			}
 		}
+		return fmt.Sprintf("%s: it is %s (%d bytes) in which the content of each of the %d packet(s) recovered from the cache is followed by the zero bytes of the rest of the 1504-byte fetch buffer", desc, st.fname(t, fi), len(st.fr[t][fi].Data), n)
 	}
-	var order []int
-	for _, i := range st.pre {
-		if st.pk[i].Track == t && !st.pk[i].PreLost {
-			order = append(order, i)
-		}
-	}
-	gets := o.tracks[t].gets
-	gi := 0
-	for gi < len(gets) && gets[gi].step < 0 {
-		gi++
-	}
-	for si, s := range h.Steps {
-		if s.K != "w" || st.pk[s.P].Track != t {
+	// (1) the whole frame, packets from the cache carrying the rest of the
+	// fetch buffer
+	for fi := range st.fr[t] {
+		if !c.hasRecovered(t, fi) {
 			continue
 		}
-		for gi < len(gets) && gets[gi].step <= si {
-			if gets[gi].n > 0 {
-				if i, ok := bySeq[gets[gi].seq]; ok {
-					order = append(order, i)
-				}
-			}
-			gi++
-		}
-		order = append(order, s.P)
-	}
-	return order
-}
-
-// referenceSamples feeds the observed push sequence to a fresh instance of
-// the real sample builder (the pinned dependency, public API) and returns
-// what IT produces.  Used only to attribute a truncated frame: if the
-// dependency alone produces the same truncated sample, the defect is there.
-func referenceSamples(st *stream, order []int, t int) [][]byte {
-	codec := st.cfg.Codec
-	rate := uint32(vRate)
-	if t == trA {
-		codec, rate = "opus", aRate
-	}
-	sb := samplebuilder.New(maxLate(t), depacketizer(codec), rate)
-	var out [][]byte
-	for _, i := range order {
-		var p rtp.Packet
-		if p.Unmarshal(append([]byte(nil), st.pk[i].Raw...)) != nil {
-			continue
-		}
-		sb.Push(&p)
-		for {
-			s, _ := sb.PopWithTimestamp()
-			if s == nil {
-				break
-			}
-			out = append(out, s.Data)
+		if alt, ok := c.depack(t, fi, len(st.fr[t][fi].Pk), true); ok && bytes.Equal(alt, b.data) {
+			b.owner = fi
+			v.add(s8, s8what(fi))
+			return
 		}
 	}
-	for {
-		s, _ := sb.ForcePopWithTimestamp()
-		if s == nil {
+	// (2) the dependency alone produces this sample from the packets the
+	// recorder was given; (3) it does so from the packets as the recorder
+	// parsed them (cache packets with the rest of the fetch buffer)
+	anyCache := false
+	for _, ev := range c.pushOrder(t) {
+		if ev.fromCache {
+			anyCache = true
+		}
+	}
+	for _, padded := range []bool{false, true} {
+		if padded && !anyCache {
 			break
 		}
-		out = append(out, s.Data)
+		r := c.ref(t, padded)
+		pi := 0
+		if padded {
+			pi = 1
+		}
+		if c.usedRef[t][pi] == nil {
+			c.usedRef[t][pi] = map[int]bool{}
+		}
+		for si, s := range r.samples {
+			if c.usedRef[t][pi][si] || !bytes.Equal(s.data, b.data) {
+				continue
+			}
+			c.usedRef[t][pi][si] = true
+			fi := c.frameOfSample(t, r, si)
+			b.owner = fi
+			if fi < 0 {
+				break
+			}
+			f := st.fr[t][fi]
+			if padded {
+				v.add(s8, s8what(fi)+" (and the frame is damaged by the sample builder in addition)")
+			}
+			// truncated at a packet boundary?
+			trunc := 0
+			for n := 1; n < len(f.Pk); n++ {
+				if alt, ok := c.depack(t, fi, n, padded); ok && bytes.Equal(alt, b.data) {
+					trunc = n
+				}
+			}
+			// were the frame's packets given to the builder in order?
+			pos := map[int]int{}
+			for k, ev := range r.order {
+				if _, ok := pos[ev.pkt]; !ok {
+					pos[ev.pkt] = k
+				}
+			}
+			shape := "frame-packets-in-order"
+			for k := 1; k < len(f.Pk); k++ {
+				if pos[f.Pk[k]] < pos[f.Pk[k-1]] {
+					shape = "frame-packets-reordered"
+				}
+			}
+			if st.cfg.PreN > 0 || st.cfg.PreA > 0 {
+				shape = "after-preroll/" + shape
+			}
+			where := ""
+			if !s.forced {
+				where = fmt.Sprintf(" (the frame starts at index %d of the builder's ring of %d)", s.tailIdx, s.ringLen)
+			}
+			dep := "; a fresh jech/samplebuilder fed the packet sequence observed at the seam (every Write and every cache fetch, in order) emits the same sample, so the damage happens inside the dependency"
+			if trunc > 0 {
+				v.add("frame-truncated/samplebuilder-ring-wrap/"+shape, fmt.Sprintf("%s: it is the first %d of the %d packets of %s, the rest is discarded%s%s",
+					desc, trunc, len(f.Pk), st.fname(t, fi), where, dep))
+			} else {
+				v.add("frame-bytes-differ/samplebuilder/"+c.codec(t)+"-depacketiser-state-carried-over", fmt.Sprintf("%s: it belongs to %s (%d bytes)%s%s",
+					desc, st.fname(t, fi), len(f.Data), where, dep))
+			}
+			return
+		}
 	}
-	return out
-}
-
-func explainBlock(st *stream, h *History, o *obs, t int, b *block, recovered []bool, class string) (string, string) {
-	codec := st.cfg.Codec
-	if t == trA {
-		codec = "opus"
-	}
-	// candidate frame: the one whose first packet's content starts the block
+	// (4) unexplained
 	cand := -1
 	for fi, f := range st.fr[t] {
-		d := depacketizer(codec)
+		d := depacketizer(c.codec(t))
 		head, err := d.Unmarshal(st.pk[f.Pk[0]].Pay)
 		if err == nil && len(head) > 0 && bytes.HasPrefix(b.data, head) {
 			cand = fi
 			break
 		}
 	}
-	desc := fmt.Sprintf("block of %d bytes at %d ms (track %s) is not byte-identical to any frame that was sent", len(b.data), b.time, tname(t))
-	if cand < 0 {
-		return "frame-bytes-differ/unknown-content/" + class, desc
-	}
-	f := st.fr[t][cand]
-	desc += fmt.Sprintf("; it starts like %s (%d bytes, %d packets)", st.fname(t, cand), len(f.Data), len(f.Pk))
-	// (1) packets that came from the cache carry the rest of the 1504-byte
-	// fetch buffer
-	anyRec := false
-	{
-		d := depacketizer(codec)
-		var alt []byte
-		for _, pi := range f.Pk {
-			raw := st.pk[pi].Raw
-			pay := st.pk[pi].Pay
-			if recovered[pi] {
-				anyRec = true
-				pay = append(append([]byte(nil), pay...), make([]byte, 1504-len(raw))...)
-			}
-			x, err := d.Unmarshal(pay)
-			if err != nil {
-				alt = nil
-				break
-			}
-			alt = append(alt, x...)
-		}
-		if anyRec && alt != nil && bytes.Equal(alt, b.data) {
-			n := 0
-			for _, pi := range f.Pk {
-				if recovered[pi] {
-					n++
-				}
-			}
-			return "frame-bytes-differ/cache-recovered-packet", desc + fmt.Sprintf(": the content of each of its %d packet(s) recovered from the cache is followed by the zero bytes of the rest of the 1504-byte fetch buffer (%d bytes too long)", n, len(b.data)-len(f.Data))
+	if cand >= 0 {
+		b.owner = cand
+		desc += fmt.Sprintf("; it starts like %s (%d bytes, %d packets)", st.fname(t, cand), len(st.fr[t][cand].Data), len(st.fr[t][cand].Pk))
+		if c.hasRecovered(t, cand) {
+			v.add("frame-bytes-differ/cache-recovered-packet-other/"+c.class, desc+"; the frame contains a packet recovered from the cache but the block is not explained by trailing fetch-buffer bytes")
+			return
 		}
 	}
-	// (2) truncated at a packet boundary
-	{
-		d := depacketizer(codec)
-		var pre []byte
-		for n, pi := range f.Pk {
-			x, err := d.Unmarshal(st.pk[pi].Pay)
-			if err != nil {
-				break
-			}
-			pre = append(pre, x...)
-			if n < len(f.Pk)-1 && bytes.Equal(pre, b.data) {
-				// who truncated it?
-				order := pushOrder(st, h, o, t)
-				ref := referenceSamples(st, order, t)
-				byDep := false
-				for _, s := range ref {
-					if bytes.Equal(s, b.data) {
-						byDep = true
-					}
-				}
-				inOrder := true
-				pos := map[int]int{}
-				for k, pi := range order {
-					if _, ok := pos[pi]; !ok {
-						pos[pi] = k
-					}
-				}
-				for k := 1; k < len(f.Pk); k++ {
-					if pos[f.Pk[k]] < pos[f.Pk[k-1]] {
-						inOrder = false
-					}
-				}
-				shape := "frame-packets-in-order"
-				if !inOrder {
-					shape = "frame-packets-reordered"
-				}
-				if st.cfg.PreN > 0 || st.cfg.PreA > 0 {
-					shape = "after-preroll/" + shape
-				}
-				what := desc + fmt.Sprintf(": it is the first %d of its %d packets, the rest is discarded", n+1, len(f.Pk))
-				if byDep {
-					return "frame-truncated/samplebuilder-ring-wrap/" + shape, what + "; a fresh jech/samplebuilder fed the same packet sequence (the Writes and cache fetches observed at the seam) emits the same truncated sample, so the loss happens inside the dependency"
-				}
-				return "frame-truncated/recorder/" + shape, what + "; a fresh jech/samplebuilder fed the same packet sequence emits the complete frame"
-			}
-		}
-	}
-	if anyRec {
-		return "frame-bytes-differ/cache-recovered-packet-other/" + class, desc + "; the frame contains a packet recovered from the cache but the block is not explained by trailing fetch-buffer bytes"
-	}
-	return "frame-bytes-differ/other/" + class, desc
+	v.add("frame-bytes-differ/other/"+c.class, desc)
 }
